@@ -1738,6 +1738,13 @@ func (s *BgpServer) handleFSMMessage(peer *peer, e *fsmMsg) {
 		}
 	}()
 
+	// The neighbour was deleted while this message waited for the lock: its
+	// routes are gone and its end has been reported, a state change handled
+	// now would report a session of a neighbour that does not exist.
+	if s.neighborMap[netip.MustParseAddr(peer.ID())] != peer {
+		return
+	}
+
 	switch e.MsgType {
 	case fsmMsgStateChange:
 		nextState := e.MsgData.(bgp.FSMState)
@@ -3877,8 +3884,12 @@ func (s *BgpServer) deleteNeighbor(c *oc.Neighbor, code, subcode uint8, sendNoti
 	if sendNotification {
 		n.fsm.deconfiguredNotification <- bgp.NewBGPNotificationMessage(code, subcode, nil)
 	}
+	// watchers are told the state the neighbour was last reported in (an
+	// established session that ends here is reported down, e.g. by BMP
+	// Peer Down); what the dying FSM still reports is ignored from now on
+	oldState := bgp.FSMState(n.fsm.pConf.ReadOnly().State.SessionState.ToInt())
 	s.dropAdjRIBIn(n, n.configuredRFlist())
-	s.stopNeighbor(n, -1, nil)
+	s.stopNeighbor(n, oldState, &fsmMsg{StateReason: newfsmStateReason(fsmDeConfigured, nil, nil)})
 	return nil
 }
 
